@@ -27,7 +27,8 @@ CHECKS = {
                        "release of the source - equals the plain composition, licence on or off. With the licence on: subscriptions_total = Subscribe calls, notification_in_total = "
                        "values the source emitted into the pipe, notification_out_total = values the subscribers received, one lag observation per source value, and per operator index "
                        "one processing-time observation per value leaving that operator; the stand-alone counters equal the Next/Error/Complete/subscription events. Licence off: "
-                       "nothing exported, stand-alone operators are the identity."),
+                       "nothing exported, stand-alone operators are the identity."
+                       " Per-operator processing-time counts are compared with the values that descend from a value that ENTERED the operator (each slot's tap marks the context), so the listed finding covers only the operator that emits on its own."),
         "level_note": "One listed finding (no processing-time observation for values emitted off the item path). In/lag/per-operator equalities are asserted for chains without early-terminating or re-subscribing stages (a synchronous source keeps emitting into a closed chain there).",
     },
     "C18": {
@@ -46,7 +47,8 @@ CHECKS = {
                        "that function's error, never a panic); string and byte flavours of the text helpers must agree on the same text; encode-then-decode is the identity (base64, gob, "
                        "CSV); sort emits a sorted permutation, stable where it says so; reader chunks concatenate to the input (lines: minus terminators), including data returned with "
                        "EOF and injected read faults; no operator modifies the value it was handed or a value already delivered; every plugin row keeps grammar, source release and context."
-                       " Time operators are also fed moments within a day of a zone-offset change in six daylight-saving locations (time/tzdata linked in)."),
+                       " Time operators are also fed moments within a day of a zone-offset change in six daylight-saving locations (time/tzdata linked in)."
+                       " time.Parse is judged with the process's local zone drawn from the same locations (zone abbreviations and offsets are matched against time.Local)."),
         "level_note": "One listed finding pinned by the plugins' own tests (byte-wise word splitting on non-ASCII text).",
     },
     "C20": {
@@ -127,7 +129,8 @@ CHECKS = {
         "technique": "generated concurrent scenarios executed under the Go race detector over many repetitions; reports classified by the innermost library function of each conflicting access",
         "level_text": ("Exploration. The concurrent scenarios generated for C02, C03, C10 and C11 are executed in a -race build with observers that add no synchronisation of their own; every "
                        "race report is attributed to the library functions of the two conflicting accesses. Any pair that is not a listed finding is a violation."
-                       " Also: operators with goroutines of their own against one producer, and Share with every subscriber leaving while the source ends."),
+                       " Also: operators with goroutines of their own against one producer, and Share with every subscriber leaving while the source ends."
+                       " Instrumented (Prometheus) pipes containing a hand-off operator, three subscriptions at once."),
         "level_note": "The detector only sees executed interleavings: no report is not race freedom. One listed finding (close vs send in ObserveOn/SubscribeOn).",
     },
     "C02": {
@@ -216,7 +219,8 @@ CHECKS = {
         "level_text": ("Exploration. After every step of every enumerated/generated operation sequence, each subscriber's log, CountObservers/HasObserver and IsClosed/HasThrown/"
                        "IsCompleted must equal the 40-line sequential definition of the subject kind (replay rules before and after termination, async final value, unicast "
                        "single subscriber and backlog). Concurrent histories (call/return stamps, final subscriber logs as reads) must be linearizable w.r.t. the same "
-                       "definition; callbacks must not overlap and must respect the grammar."),
+                       "definition; callbacks must not overlap and must respect the grammar."
+                       " Buffer size 0 is part of the range; publications racing with the terminal call behind a spin barrier, followed by late subscribers."),
         "level_note": ("Two listed unicast findings are reported as KNOWN-FINDING. In the concurrent check the late-subscriber rule of unicast is taken as implemented (it is judged by "
                        "the sequential check). Concurrency coverage is statistical."),
     },
@@ -345,7 +349,8 @@ CHECKS = {
                        "catalogue row and every subject kind/buffer size, and the producer plays every word of length <= 4 (quick) / 5 (thorough) over "
                        "{Next 1, Next 2, Error, Complete}, most of which break the contract after the first terminal; the automaton Next* (Error|Complete)? "
                        "must accept what the observer saw and, for bare observables and subjects, delivered + dropped-hook calls must equal what was emitted. "
-                       "Concurrent producers are generated for the safe constructors and the subjects (statistical)."),
+                       "Concurrent producers are generated for the safe constructors and the subjects (statistical)."
+                       " Bare constructors are also run with a subscribe function that panics AFTER having played its word (the recovered panic must obey the grammar like any other notification)."),
         "level_note": ("The concurrent part only sees the interleavings the Go scheduler produces (5 repetitions per generated case, widened by a slow callback); "
                        "asynchronous / multi-source rows are covered by C02/C05, panicking callbacks by C07."),
     },
@@ -365,7 +370,8 @@ CHECKS = {
                        "compared with the composition of the models; Pipe/PipeN/PipeOp/PipeOpN/manual nesting are compared for every arity 1..25 with "
                        "non-commuting maps; creation operators are compared with their definition including int64 extremes; delivered slices/maps are "
                        "checked for later mutation. Sampled beyond the small scope; no claim outside explored cases."
-                       " Sum, Average, Min, Max, Clamp and Count are run over every numeric element type (int8..uint64, float32/64, values at the type's limits) against exact rational arithmetic."),
+                       " Sum, Average, Min, Max, Clamp and Count are run over every numeric element type (int8..uint64, float32/64, values at the type's limits) against exact rational arithmetic."
+                       " Dematerialize over arbitrary notification streams (in-band and out-of-band endings, Take upstream); for every operator that delivers slices or maps, a consumer that clears whatever it receives must be delivered the same sequence as a passive one."),
         "level_note": ("Trusts the hand-written reference models (harness/model) and the documentation reading recorded in DESIGN.md appendix A. "
                        "Time-driven, hand-off and multi-source rows are judged by C05/C08/C16/C17, float rounding helpers by validity predicates only."),
     },
